@@ -256,10 +256,28 @@ func compareConstraints(key string, sf, gf *ast.File) FileCmp {
 		}
 		return true
 	}
-	for _, pair := range [][2][]constraint.Expr{{sg, gg}, {sp, gp}} {
-		if (len(pair[0]) == 0) != (len(pair[1]) == 0) {
-			res.Bad = "a constraint syntax present in the source is missing in the generated file (or vice versa)"
-			return res
+	// what the go tool obeys: the //go:build line if there is one, the +build lines otherwise. Every syntax
+	// present in the generated file must say the same as the source's effective constraint with cff flipped
+	// (gofmt adds a //go:build line to a file that has +build lines only: an added syntax is fine, a syntax of
+	// the source that disappears is not when it was the only one older toolchains read)
+	effective := func(gb, pb []constraint.Expr) []constraint.Expr {
+		if len(gb) > 0 {
+			return gb
+		}
+		return pb
+	}
+	src := effective(sg, sp)
+	if len(src) == 0 && (len(gg) > 0 || len(gp) > 0) {
+		res.Bad = "the generated file carries a build constraint, the source none"
+		return res
+	}
+	if len(sg) > 0 && len(gg) == 0 || len(sp) > 0 && len(gp) == 0 {
+		res.Bad = "a constraint syntax present in the source is missing in the generated file"
+		return res
+	}
+	for _, gen := range [][]constraint.Expr{gg, gp} {
+		if len(gen) == 0 {
+			continue
 		}
 		for m := 0; m < 1<<len(names); m++ {
 			asg, flipped := map[string]bool{}, map[string]bool{}
@@ -268,8 +286,8 @@ func compareConstraints(key string, sf, gf *ast.File) FileCmp {
 				flipped[n] = asg[n]
 			}
 			flipped["cff"] = !asg["cff"]
-			if all(pair[1], asg) != all(pair[0], flipped) {
-				res.Bad = fmt.Sprintf("under %v the generated file is selected=%v but the source with cff flipped is selected=%v", asg, all(pair[1], asg), all(pair[0], flipped))
+			if all(gen, asg) != all(src, flipped) {
+				res.Bad = fmt.Sprintf("under %v the generated file is selected=%v but the source with cff flipped is selected=%v", asg, all(gen, asg), all(src, flipped))
 				return res
 			}
 		}
